@@ -245,7 +245,9 @@ func (e *Exec) schedule(from *Thread) *Thread {
 		if from != nil {
 			key = "sched after " + from.Name + ":" + from.key
 		}
-		e.Trace = append(e.Trace, PointRec{Key: key, Kind: KindSched, N: len(en), Chosen: choice, Free: !curEnabled && !e.defaultIsPreferred(en), Alts: alts})
+		e.Trace = append(e.Trace, PointRec{Key: key, Kind: KindSched, N: len(en), Chosen: choice, Free: false, Alts: alts})
+		_ = curEnabled // every non-default choice counts as one deviation, also at a forced switch: exploring all
+		// orders of the remaining threads for free at every blocking point is exponential in the drain phase
 	}
 	next := en[choice]
 	e.cur = next
@@ -422,4 +424,19 @@ func (e *Exec) ThreadNames() string {
 		n = append(n, t.Name+"("+st+" before "+t.key+")")
 	}
 	return strings.Join(n, ", ")
+}
+
+// AliveNamed counts threads of the running execution that have not finished and whose name
+// contains substr (resource accounting: goroutines a component keeps alive).
+func AliveNamed(substr string) int {
+	if E == nil {
+		return 0
+	}
+	n := 0
+	for _, t := range E.threads {
+		if !t.done && strings.Contains(t.Name, substr) {
+			n++
+		}
+	}
+	return n
 }
